@@ -13,6 +13,7 @@ G  GenScen scenarios x GenAlias link sets: the canonical tree is decorated with 
    (links to in-base targets add nothing, paths whose target is outside are not members), the
    enumerated code base, and the tree report's root figures.
 """
+import copy
 import io
 import json
 import os
@@ -66,7 +67,19 @@ def replay_chunk(args):
         base = scen.new_base(workdir)
         try:
             rnd = random.Random(f"{seed}-{si}")
+            if al["links"] and si % 2 == 0:
+                # name-level aliases: some #include directives name h.h through a link hl.h -> h.h that stands
+                # beside every h.h (so the search finds it in exactly the same directory; one physical file)
+                sc = copy.deepcopy(sc)
+                for f in sc["files"].values():
+                    for it in f["items"]:
+                        if it["k"] == "include" and it["name"] == "h.h" and rnd.random() < 0.6:
+                            it["name"] = "hl.h"
+                tags = tags | {"link.header_name"}
             m = scen.Mat(sc, base, seed=rnd.random())
+            for fid, f in sc["files"].items():
+                if f["name"] == "h.h" and "link.header_name" in tags:
+                    os.symlink("h.h", os.path.join(os.path.dirname(m.paths[fid]), "hl.h"))
             for d in ("deep", "build", "sys/include", "src", "src/sub", "inc"):
                 os.makedirs(os.path.join(m.root, d), exist_ok=True)
             os.makedirs(m.extdir, exist_ok=True)
